@@ -29,6 +29,10 @@ type Spec struct {
 	// SecondCloser: once the root's closer is inside Close (waiting for the late task), ANOTHER goroutine
 	// calls Close on the root as well: it must be refused loudly, not answered
 	SecondCloser bool `json:"second_closer,omitempty"`
+	// Orphan ("stop" | "kill"): the root ends that way BEFORE a child "O" is created on it (so the child is
+	// not registered and the root's Close does not wait for it); the child is closed after the root's
+	// Close has returned and runs the whole protocol of its own
+	Orphan string `json:"orphan_child_of_ended_root,omitempty"`
 }
 
 // (a list, not a map keyed by the ids: should two event ids ever coincide, both recorders are
@@ -65,6 +69,7 @@ type obs struct {
 	tasks            map[string][]string // accepted task bodies per scope
 	injected         map[string]bool     // scopes that received an error (task or listener) before their wait could end
 	concurrentSecond string              // outcome of a second Close issued while the first one was waiting
+	orphanClose      string              // "nil" | "error" | "panic: ..." - Close of the child created on the ended root
 }
 
 var errTask = errors.New("task-error")
@@ -118,6 +123,17 @@ func build(sp Spec, o *obs) func() {
 		}
 		rec(root, "R1")
 		rec(root, "R2")
+		var orphan app.Scope
+		if sp.Orphan != "" {
+			if sp.Orphan == "kill" {
+				root.Kill()
+			} else {
+				root.Stop()
+			}
+			orphan = scope.NewChild(root, scope.ChildParams{Name: "O"})
+			o.scopes["O"] = orphan
+			rec(orphan, "O1")
+		}
 		for _, n := range []string{"C", "G", "I"} {
 			if s, ok := o.scopes[n]; ok {
 				rec(s, n+"1")
@@ -216,6 +232,20 @@ func build(sp Spec, o *obs) func() {
 			})
 		}
 		wg.Wait()
+		if orphan != nil {
+			func() {
+				defer func() {
+					if r := recover(); r != nil {
+						o.orphanClose = fmt.Sprintf("panic: %v", r)
+					}
+				}()
+				if err := orphan.Close(); err != nil {
+					o.orphanClose = "error"
+				} else {
+					o.orphanClose = "nil"
+				}
+			}()
+		}
 		o.logAfter = len(o.log)
 		// closing twice is refused loudly
 		for _, n := range sp.Scopes {
@@ -258,6 +288,22 @@ func judge(sp Spec, o *obs) func(x *explore.Exec) *explore.Verdict {
 	return func(x *explore.Exec) *explore.Verdict {
 		if !o.done {
 			return &explore.Verdict{Kind: "not-finished", Clause: "Close returns once tasks are done and children closed", Detail: "the harness did not finish"}
+		}
+		if sp.Orphan != "" {
+			var seq []string
+			for _, e := range o.log[:o.logAfter] {
+				if e.scope == "O" && e.listener == "O1" {
+					seq = append(seq, e.event)
+				}
+			}
+			want, wantClose := "BeforeClose BeforeCommit Commit AfterCommit AfterClose", "nil"
+			if sp.Orphan == "kill" {
+				want, wantClose = "BeforeClose BeforeRollback Rollback AfterRollback AfterClose", "error"
+			}
+			if got := strings.Join(seq, " "); got != want || o.orphanClose != wantClose {
+				return &explore.Verdict{Kind: "event-sequence/orphan-child", Clause: "before-close, then exactly one of the commit or rollback triple, then after-close - each once, in that order; Close reports an error iff the scope holds one", Detail: fmt.Sprintf("a child created on a root that had already ended (%s) and closed after the root's Close: its own listener saw %q (want %q), its Close gave %s (want %s)", sp.Orphan, got, want, o.orphanClose, wantClose)}
+			}
+			return nil // (the other scopes' protocol is the other programs' subject: here the root was ended by the harness)
 		}
 		if sp.SecondCloser && o.concurrentSecond != "panic" {
 			return &explore.Verdict{Kind: "concurrent-second-close-not-refused", Clause: "closing twice is refused loudly rather than repeating the events", Detail: fmt.Sprintf("a second Close issued by another goroutine while the first one was waiting for a task %s (expected: refused with a panic)\nlog: %s", o.concurrentSecond, renderLog(o.log))}
@@ -540,6 +586,11 @@ func programs(thorough bool) []Spec {
 			}
 		}
 	}
+	// a child created on a root that has already ended, closed after the root
+	for _, end := range []string{"stop", "kill"} {
+		ps = append(ps, Spec{Scopes: []string{"R"}, Tasks: map[string][]string{}, Orphan: end, Bound: b},
+			Spec{Scopes: []string{"R", "C"}, Tasks: map[string][]string{"C": {"yield"}}, Orphan: end, Bound: b})
+	}
 	return ps
 }
 
@@ -553,6 +604,9 @@ func mkProgram(sp Spec) *explore.Program {
 	}
 	if sp.SecondCloser {
 		name += ":second-closer"
+	}
+	if sp.Orphan != "" {
+		name += ":orphan-after-" + sp.Orphan
 	}
 	return &explore.Program{Prop: "C11", Name: name, Spec: sp,
 		Opt:  explore.Options{Bound: sp.Bound, Focus: focus, MaxSteps: 8000, HBR: true, NoShard: true},
@@ -595,7 +649,7 @@ func replay(wj json.RawMessage) (*fw.Violation, error) {
 
 func init() {
 	fw.Register(&fw.Check{ID: "C11", Level: "model_checking",
-		Rule: "programs = scope tree {root; +shared child; +isolated child; +child+grandchild; +shared+isolated} x task bodies {none, AppendError, Kill, Stop, yield, Stop-then-Kill, Stop-then-AppendError, create-and-close a child scope while another task ends the scope} in the deepest scope / the root / two per scope x a listener returning an error on {BeforeClose, BeforeCommit, Commit, Rollback, AfterClose} x tasks that report their failure only after the closer is inside Close (4 of these programs with a second goroutine calling Close on the root meanwhile: refused loudly); one closer thread per scope, one thread per task, recorders on all 11 events on the root (twice) and on every child; every schedule with <= bound preemptions; oracle on the global-step event log as described in DESIGN.md 3/C11. states = distinct schedule traces",
+		Rule: "programs = scope tree {root; +shared child; +isolated child; +child+grandchild; +shared+isolated} x task bodies {none, AppendError, Kill, Stop, yield, Stop-then-Kill, Stop-then-AppendError, create-and-close a child scope while another task ends the scope} in the deepest scope / the root / two per scope x a listener returning an error on {BeforeClose, BeforeCommit, Commit, Rollback, AfterClose} x tasks that report their failure only after the closer is inside Close (4 of these programs with a second goroutine calling Close on the root meanwhile: refused loudly); 4 programs in which a child is created on a root that has already ended (stop / kill) and is closed after the root's Close has returned: it runs the whole protocol of its own; one closer thread per scope, one thread per task, recorders on all 11 events on the root (twice) and on every child; every schedule with <= bound preemptions; oracle on the global-step event log as described in DESIGN.md 3/C11. states = distinct schedule traces",
 		Run:  run, Replay: replay,
 		Assumptions: []string{"commit/rollback is only judged when the error source is ordered before (or there is no error source at all for) the scope's wait end", "preemption bounds as reported; 1-2 tasks per scope, depth <= 3"}})
 }
